@@ -176,7 +176,12 @@ class Adapter:
         try:
             ctx = self.ctx_for(case)
         except Exception as e:
-            # the specification's generator only emits well-formed languages: the language graph must accept them
+            if not isinstance(case['lang'], str):
+                # a RANDOM language (LangGen) that the toolbox refuses to load is inconclusive, not a divergence: the specification types intersection / difference by the common super asset (as malc does), the toolbox by the left operand, so a type filter such as (fe - fa)[T] can be well-formed for one and not for the other (DESIGN.md section 7); library languages must load
+                res['inconclusive'] = True
+                res['features'].append('generated_language_refused')
+                return res
+            # a library language is well-formed by construction: the language graph must accept it
             d = self.div(case, 'language_graph_raises', {'error': repr(e)[:400]}, [])
             d['lang_record'] = case['lang'] if not isinstance(case['lang'], str) else None
             res['div'].append(d)
